@@ -310,9 +310,16 @@ DeclStructG(env, kind, tag, fs) ==
 
 \* enum e1 { A, B = 5 };
 AllConsts(env) == (DOMAIN env.kc) \cup UNION {{env.en[e].names[i] : i \in DOMAIN env.en[e].names} : e \in DOMAIN env.en}
+\* model.py:build_baseinttype: "values don't all fit into either 'long' or 'unsigned long'" otherwise
+EnumFits(vals) ==
+  IF EnumSigned(vals)
+  THEN \A i \in DOMAIN vals : IF IsNeg(vals[i]) THEN DecLe(Abs(vals[i]), "9223372036854775808")
+                                ELSE DecLe(vals[i], "9223372036854775807")
+  ELSE \A i \in DOMAIN vals : DecLe(vals[i], "18446744073709551615")
 DeclEnumG(env, tag, names, vals) ==
   /\ tag \notin DOMAIN env.en
   /\ Len(names) = Len(vals) /\ Len(names) >= 1
+  /\ EnumFits(vals)
   /\ \A i, j \in DOMAIN names : i # j => names[i] # names[j]
   /\ \A i \in DOMAIN names : names[i] \notin AllConsts(env)
 DeclEnumE(env, tag, names, vals) ==
@@ -491,9 +498,20 @@ FieldLists(e, selfptr) ==
             ELSE {}
   IN {<< <<"a", c, Unk>> >> : c \in C1} \cup {<< <<"a", c, Unk>>, <<"b", d, Unk>> >> : c \in C1, d \in C2} \cup B \cup N
 
-EnumShapes == { << <<"A">>, <<"0">> >>, << <<"A", "B">>, <<"0", "5">> >>, << <<"A", "B">>, <<"-1", "1">> >> }
+\* the 64-bit boundaries (decimal text: TLC integers are 32-bit): 0, +-1, +-2^31, 2^32-1, 2^32,
+\* +-(2^63-1), -2^63, 2^63, 2^64-1
+Boundary == {"0", "1", "-1", "2147483648", "-2147483648", "4294967295", "4294967296",
+             "9223372036854775807", "-9223372036854775807", "-9223372036854775808",
+             "9223372036854775808", "18446744073709551615"}
+EnumShapes ==
+  { << <<"A">>, <<"0">> >>, << <<"A", "B">>, <<"0", "5">> >>, << <<"A", "B">>, <<"-1", "1">> >> }
+  \cup (IF "bigconst" \in Feat
+        THEN {<< <<"A">>, <<v>> >> : v \in Boundary}                       \* base type int .. unsigned long
+             \cup {<< <<"A", "B">>, <<"0", "18446744073709551615">> >>, << <<"A", "B">>, <<"-1", "9223372036854775807">> >>,
+                   << <<"A", "B">>, <<"-9223372036854775808", "2147483648">> >>, << <<"A", "B">>, <<"9223372036854775808", "1">> >>}
+        ELSE {})
 EnumNames(tag, ns) == [i \in DOMAIN ns |-> tag \o ns[i]]       \* e1A, e1B: unique per enum
-ConstVals == {"7", "-3"}
+ConstVals == IF "bigconst" \in Feat THEN Boundary \cup {"7"} ELSE {"7", "-3"}
 
 Log(name, args) == Len(hist) < MaxDecls /\ hist' = Append(hist, <<name, args>>)
 
